@@ -139,6 +139,11 @@ type SecureChannel struct {
 	chunks   map[uint32][]*MessageChunk
 	chunksMu sync.Mutex
 
+	// recvSeq is the sequence number of the last chunk accepted by readChunk.
+	// It is only touched by the goroutine that calls Receive.
+	recvSeq    uint32
+	recvSeqSet bool
+
 	// openingInstance is a temporary var that allows the dispatcher know how to handle a open channel request
 	// note: we only allow a single "open" request in flight at any point in time. The mutex is held for the entire
 	// duration of the "open" request.
@@ -527,7 +532,27 @@ func (s *SecureChannel) readChunk() (*MessageChunk, error) {
 	}
 	m.Data = m.Data[n:]
 
+	// Part 6, 6.7.2.4: sequence numbers increase monotonically for the lifetime
+	// of the channel. A chunk that is not ahead of the last accepted one is a
+	// replayed or re-ordered chunk and must not be processed again.
+	if !s.acceptSequenceNumber(m.SequenceHeader.SequenceNumber) {
+		return nil, ua.StatusBadSequenceNumberInvalid
+	}
+
 	return m, nil
+}
+
+// acceptSequenceNumber reports whether seq is ahead of the last accepted
+// sequence number and records it. The comparison uses serial number
+// arithmetic so that the wrap around from a value above MaxUint32-1024 to a
+// value below 1024 is accepted while a copy of a chunk sent before the wrap
+// is still recognized as old. Gaps are tolerated.
+func (s *SecureChannel) acceptSequenceNumber(seq uint32) bool {
+	if s.recvSeqSet && int32(seq-s.recvSeq) <= 0 {
+		return false
+	}
+	s.recvSeq, s.recvSeqSet = seq, true
+	return true
 }
 
 // verifyAndDecrypt verifies and optionally decrypts a message. if `instance` is given, then it will only use that
